@@ -94,6 +94,15 @@ def h_roundtrip(kind: int, pn: int, p0: int, p1: int, vn: int, v0: int, v1: int,
         return any(ord(ch) < 32 for ch in pv) or kf_param(pv)
     if name != "X-NAME" or list(back.keys()) != ["X-P"]:
         return False
+    # splitting is a function of the line text alone: editing the parameters it returned (as callers do
+    # with parsed properties) must not change what an equal line splits into afterwards
+    snap = (name, list(back.items()), value)
+    back["X-EDITED"] = "1"
+    del back["X-P"]
+    name2, back2, value2 = Contentline(str(line)).parts(text=text_kind)
+    if (name2, list(back2.items()), value2) != snap:
+        return False
+    back = back2
     if kf_param(pv):
         return True      # known finding C08-K1: parameter (and then value) text may be altered, the structure is not
     if not kf_param(pv) and '"' not in pv and not any(ord(ch) < 32 for ch in pv):
